@@ -1041,6 +1041,29 @@ def _b_getattr(M, I, args, kw, node):
         raise
 
 
+def _b_copy(M, I, args, kw, node):
+    """copy.copy: field-wise copy of a plain record/object, shallow copy of list/dict"""
+    v = args[0]
+    if isinstance(v, SObj):
+        n = SObj(v.cls, dict(v.attrs), v.ctor_args, v.ctor_kw)
+        if getattr(v, 'is_structs', False):
+            n.is_structs = True
+        return n
+    if isinstance(v, SRec):
+        return SRec(dict(v.fields), v.kind)
+    if isinstance(v, list):
+        return list(v)
+    if isinstance(v, dict):
+        return dict(v)
+    if isinstance(v, SList):
+        return SList(v.elem, v.n, v.name)
+    return v
+
+
+def _b_deepcopy(M, I, args, kw, node):
+    return M.snap(args[0], {})
+
+
 def _b_setattr(M, I, args, kw, node):
     o, a, v = args
     if not isinstance(a, str):
@@ -1254,6 +1277,9 @@ _BUILTIN_TABLE = {
 import struct as _struct_mod
 _BUILTIN_TABLE[_struct_mod.unpack] = _b_struct_unpack
 _BUILTIN_TABLE[int.from_bytes] = _b_from_bytes
+import copy as _copy_mod
+_BUILTIN_TABLE[_copy_mod.copy] = _b_copy
+_BUILTIN_TABLE[_copy_mod.deepcopy] = _b_deepcopy
 import bisect as _bisect_mod
 _BUILTIN_TABLE[_bisect_mod.bisect_right] = _b_bisect_right
 import zlib as _zlib
